@@ -22,6 +22,7 @@ MP == INSTANCE Wire_msgpack
 CB == INSTANCE Wire_cbor WITH MaxChunks <- 0, EmptyChunks <- FALSE
 BC == INSTANCE Wire_bencode
 BS == INSTANCE Wire_bson
+BR == INSTANCE Wire_ber WITH MaxSegs <- 0
 VARIABLE l
 
 Binary(f) == f \in {"msgpack", "cbor", "bencode", "bson", "asn1_ber"}
@@ -29,6 +30,7 @@ ReprOf(f, v) == CASE f = "msgpack" -> MP!Repr(v)
                   [] f = "cbor"    -> CB!Repr(v)
                   [] f = "bencode" -> BC!Repr(v)
                   [] f = "bson"    -> BS!Repr(v)
+                  [] f = "asn1_ber" -> BR!Repr(v)
                   [] OTHER         -> v            \* text formats: the value itself
 
 RoundTrip(e) == e.tree = 1 /\ e.err = 0 /\ ReprEq(ReprOf(e.f, e.val), e.got)
